@@ -25,6 +25,7 @@ var (
 
 type genBatch struct {
 	live, idx, hasRange bool
+	buffer              bool // wrapped in db.BufferBatch: only Put / Delete / Get / Write / Close exist
 }
 
 // Gen produces op sequences and keeps just enough bookkeeping to use handles sensibly.
@@ -75,10 +76,12 @@ func pickLive(r *lib.RNG, live []bool) int {
 	return lib.Pick(r, c)
 }
 
-func (g *Gen) liveBatch(needIdx bool) int {
+func (g *Gen) liveBatch(needIdx bool) int { return g.liveBatchX(needIdx, true) }
+
+func (g *Gen) liveBatchX(needIdx, allowBuffer bool) int {
 	var c []int
 	for i, b := range g.batches {
-		if b.live && (!needIdx || b.idx) {
+		if b.live && (!needIdx || b.idx) && (allowBuffer || !b.buffer) {
 			c = append(c, i)
 		}
 	}
@@ -107,10 +110,12 @@ func (g *Gen) pendingRange(except int) bool {
 	return false
 }
 
-func (g *Gen) src() string {
+func (g *Gen) src() string { return g.srcX(false) }
+
+func (g *Gen) srcX(allowBuffer bool) string {
 	switch g.r.Intn(10) {
 	case 0, 1, 2:
-		if b := g.liveBatch(true); b >= 0 {
+		if b := g.liveBatchX(true, allowBuffer); b >= 0 {
 			return fmt.Sprintf("b%d", b)
 		}
 	case 3, 4:
@@ -172,11 +177,13 @@ func (g *Gen) Next() Op {
 			g.batches = append(g.batches, genBatch{live: true, idx: g.r.Bool()})
 			return Op{K: "newbatch", Idx: g.batches[len(g.batches)-1].idx}
 		case 8:
-			if b := g.liveBatch(false); b >= 0 {
+			if b := g.liveBatchX(false, false); b >= 0 {
 				return Op{K: "bput", H: b, Key: g.key(), Val: g.val()}
 			}
 		case 9:
-			if b := g.liveBatch(false); b >= 0 {
+			// (a db.BufferBatch whose Write failed has dropped its map and panics on the next Put:
+			// use after a failed Write on a closed store is not exercised for that wrapper)
+			if b := g.liveBatchX(false, false); b >= 0 {
 				return Op{K: "bwrite", H: b}
 			}
 		case 10:
@@ -202,7 +209,7 @@ func (g *Gen) Next() Op {
 			}
 			return Op{K: "delrange", Key: g.bound(), End: g.bound(), NilB: nb}
 		case c < 27:
-			return Op{K: "get", Src: g.src(), Key: g.key(), Fail: g.r.Chance(1, 6), NilB: nb}
+			return Op{K: "get", Src: g.srcX(true), Key: g.key(), Fail: g.r.Chance(1, 6), NilB: nb}
 		case c < 31:
 			return Op{K: "has", Src: g.src(), Key: g.key(), NilB: nb}
 		case c < 38:
@@ -216,8 +223,12 @@ func (g *Gen) Next() Op {
 			return Op{K: "iter", Src: src, Key: p, U: u, NilB: nb}
 		case c < 47:
 			idx := g.r.Chance(2, 3)
-			g.batches = append(g.batches, genBatch{live: true, idx: idx})
-			return Op{K: "newbatch", Idx: idx, U: g.r.Chance(1, 4)}
+			wrap := ""
+			if idx {
+				wrap = lib.Pick(g.r, []string{"", "", "", "sync", "buffer"})
+			}
+			g.batches = append(g.batches, genBatch{live: true, idx: idx, buffer: wrap == "buffer"})
+			return Op{K: "newbatch", Idx: idx, U: g.r.Chance(1, 4), Wrap: wrap}
 		case c < 55:
 			if b := g.liveBatch(false); b >= 0 {
 				return Op{K: "bput", H: b, Key: g.key(), Val: g.val(), NilB: nb}
@@ -227,13 +238,15 @@ func (g *Gen) Next() Op {
 				return Op{K: "bdel", H: b, Key: g.key(), NilB: nb}
 			}
 		case c < 62:
-			if b := g.liveBatch(false); b >= 0 {
+			if b := g.liveBatchX(false, false); b >= 0 {
 				g.batches[b].hasRange = true
 				return Op{K: "bdelrange", H: b, Key: g.bound(), End: g.bound(), NilB: nb}
 			}
 		case c < 64:
 			if len(g.batches) > 0 {
-				return Op{K: "bsize", H: g.r.Intn(len(g.batches))}
+				if h := g.r.Intn(len(g.batches)); !g.batches[h].buffer {
+					return Op{K: "bsize", H: h}
+				}
 			}
 		case c < 68:
 			if b := g.liveBatch(false); b >= 0 {
@@ -251,7 +264,7 @@ func (g *Gen) Next() Op {
 		case c < 70:
 			// use of a batch after Write/Close: every call must fail
 			for i, b := range g.batches {
-				if !b.live {
+				if !b.live && !b.buffer {
 					return lib.Pick(g.r, []Op{{K: "bput", H: i, Key: g.key(), Val: g.val()}, {K: "bdel", H: i, Key: g.key()},
 						{K: "bdelrange", H: i, Key: g.bound(), End: g.bound()}, {K: "bwrite", H: i}, {K: "bclose", H: i},
 						{K: "get", Src: fmt.Sprintf("b%d", i), Key: g.key()}})
